@@ -65,6 +65,16 @@ Record cfg := {
   dir_on : bool; dir_ttl : N; dir_cap : N; dir_maxsize : N
 }.
 
+Definition set_ro (c : cfg) (b : bool) : cfg :=
+  {| tsize := tsize c; ro := b; maxfile := maxfile c; attr_ttl := attr_ttl c; attr_cap := attr_cap c; neg_on := neg_on c;
+     neg_ttl := neg_ttl c; dir_on := dir_on c; dir_ttl := dir_ttl c; dir_cap := dir_cap c; dir_maxsize := dir_maxsize c |}.
+Definition set_maxfile (c : cfg) (m : N) : cfg :=
+  {| tsize := tsize c; ro := ro c; maxfile := m; attr_ttl := attr_ttl c; attr_cap := attr_cap c; neg_on := neg_on c;
+     neg_ttl := neg_ttl c; dir_on := dir_on c; dir_ttl := dir_ttl c; dir_cap := dir_cap c; dir_maxsize := dir_maxsize c |}.
+Definition set_tsize (c : cfg) (t : N) : cfg :=
+  {| tsize := t; ro := ro c; maxfile := maxfile c; attr_ttl := attr_ttl c; attr_cap := attr_cap c; neg_on := neg_on c;
+     neg_ttl := neg_ttl c; dir_on := dir_on c; dir_ttl := dir_ttl c; dir_cap := dir_cap c; dir_maxsize := dir_maxsize c |}.
+
 (* one recorded backend call: (operation, path, second path / symlink target, two numbers) *)
 Inductive bop := BLstat | BStat | BOpenR | BOpenW | BCreate | BMkdir | BRemove | BRename | BSymlink | BReadlink
                | BChmod | BChown | BLchown | BChtimes | BTruncate | BReadAt | BWriteAt | BSync | BReaddir.
@@ -108,6 +118,8 @@ Definition bc (o : bop) (p : path) : bcall := {| b_op := o; b_path := p; b_path2
 Definition bc2 (o : bop) (p : path) (p2 : list N) (a b : N) : bcall :=
   {| b_op := o; b_path := p; b_path2 := p2; b_a := a; b_b := b |}.
 
+Definition srv_init_fs (f : fsmap) (c : cfg) (maxh : Z) (t : N) : srv :=
+  {| fs := f; hm := init maxh; nodes := []; ac := []; dc := []; conf := c; now := t; blog := [] |}.
 Definition srv_init (c : cfg) (maxh : Z) (t : N) : srv :=
   {| fs := fs_init; hm := init maxh; nodes := []; ac := []; dc := []; conf := c; now := t; blog := [] |}.
 
@@ -241,8 +253,12 @@ Fixpoint has_dotdot_sub (n : list N) : bool :=
   | a :: ((b :: _) as r) => ((a =? dot) && (b =? dot)) || has_dotdot_sub r
   | _ => false
   end.
-(* sanitizePath(base, name) for a validated name: fails iff the joined string contains ".." *)
-Definition sanitize_ok (d : path) (n : name) : bool := negb (existsb has_dotdot_sub (d ++ [n])).
+(* sanitizePath(base, name): rejects the empty name, names containing a separator, "." and "..", and
+   any joined string containing ".." (the post-check).  For a validated name only the last applies. *)
+Definition name_sane (n : name) : bool :=
+  negb (match n with [] => true | _ => false end) && negb (existsb (fun b => (b =? slash) || (b =? backslash)) n)
+  && negb (is_dot n) && negb (is_dotdot n).
+Definition sanitize_ok (d : path) (n : name) : bool := name_sane n && negb (existsb has_dotdot_sub (d ++ [n])).
 
 (* ---------- requests, observations ---------- *)
 Record sattr := { s_mode : option N; s_uid : option N; s_gid : option N; s_size : option N;
@@ -259,7 +275,11 @@ Inductive req :=
 | RRename (h1 : N) (n1 : name) (h2 : N) (n2 : name) | RLink (h h2 : N) (n : name)
 | RReaddir (h cookie count : N) | RReaddirplus (h cookie dircount maxcount : N)
 | RFsstat (h : N) | RFsinfo (h : N) | RPathconf (h : N) | RCommit (h off cnt : N)
-| RMnt (p : list N).
+| RMnt (p : list N)
+(* administrative actions interleaved with requests (not RPCs): runtime reconfiguration *)
+| RSetRO (b : bool)              (* UpdatePolicyOptions with ReadOnly := b *)
+| RSetMaxFile (m : N)            (* UpdatePolicyOptions with MaxFileSize := m *)
+| RSetTsize (t : N).             (* UpdateTuningOptions with TransferSize := t (t >= 1) *)
 
 Record fattr := { fa_type : N; fa_perm : N; fa_nlink : N; fa_uid : N; fa_gid : N; fa_size : N; fa_fileid : N;
                   fa_mtime : N }.
@@ -1087,6 +1107,9 @@ Definition step (s0 : srv) (c : cred) (r : req) : srv * obs :=
   | RPathconf h => handle_fsx s h (fun _ => [])
   | RCommit h _ _ => handle_commit s h
   | RMnt p => handle_mnt s p
+  | RSetRO b => (with_conf s (set_ro (conf s) b), ob_fail st_ok)
+  | RSetMaxFile m => (with_conf s (set_maxfile (conf s) m), ob_fail st_ok)
+  | RSetTsize t => (with_conf s (set_tsize (conf s) t), ob_fail st_ok)
   end end.
 
 (* a history step: advance the clock, then serve the request *)
